@@ -31,6 +31,7 @@ class T(opmatrix.MatrixOp):
         # store parameters
         self.alpha = params["alpha"]
         self.phi = params["phi"]
+        self.axes = axes
 
         # init operator
         opmatrix.diff.DiffOperator.__init__(
